@@ -76,6 +76,7 @@ func newParaNode(save bool) *testnode.Chain33Mock {
 	mc.BlockChain.IsParaChain = true
 	mc.BlockChain.IsRecordBlockSequence = save
 	mc.BlockChain.EnablePushSubscribe = false
+	mc.Consensus.Minerstart = false
 	mc.BlockChain.Driver = "memdb"
 	mc.Store.Driver = "memdb"
 	mc.Wallet.Driver = "memdb"
